@@ -36,11 +36,15 @@ def cases(tier, rng, dist):
     for _ in range(150 if tier == "quick" else 500):
         n = rng.randint(1, 40 if tier == "quick" else 60); x = rng.randint(0, n)
         yield {"n": n, "x": x, "cl": rng.choice(CLS), "alt": rng.choice(list(CALT)), "p": rng.choice([None, None, "0", "1/2", "1", "x/n", "1/1000"]),
-               "kw": rng.choice([None, None, {"xtol": 1e-10}, {"rtol": 1e-10}, {"maxiter": 200}, {"xtol": 1e-13, "maxiter": 500}])}
+               "kw": rng.choice([None, None, {"xtol": 1e-10}, {"rtol": 1e-10}, {"maxiter": 200}, {"xtol": 1e-13, "maxiter": 500}]),
+               "ntype": rng.choice([None, "int64", "int32", "uint16", "int64"])}
 
 
 def call(c, p="use", kw="use"):
     n, x = c["n"], c["x"]
+    nt = c.get("ntype")          # counts usually come out of numpy (arr.sum(), len): numpy integer scalars are integers too
+    if nt:
+        n, x = getattr(np, nt)(n), getattr(np, nt)(x)
     pp = c["p"] if p == "use" else p
     if pp == "x/n": pp = x / n
     elif pp is not None: pp = float(Fraction(pp))
